@@ -11,6 +11,7 @@ func vfC02Input(param string, def int) []byte {
 }
 
 func vfC02Check(k int, err error, in []byte) {
+	vfAllocCheck()
 	if err == nil {
 		vfAssert(k >= 0 && k <= len(in), "decoder reports more bytes consumed than the input holds")
 		vfReach("ok")
@@ -98,5 +99,18 @@ func VerifH_C02_StringSlice() {
 		C [2]uint8
 	}
 	k, err := Decode(in, &v)
+	vfC02Check(k, err, in)
+}
+
+// structured: array Variants of selected element types with symbolic flags, length, dimensions
+func VerifH_C02_VariantArray() {
+	n := vfConcrete(vfInt("n", 5, vfParam("c02.n.varray", 17)))
+	vfAllocBudget(256*n + 4<<20)
+	in := vfBytes("in", n)
+	types := []byte{byte(TypeIDInt32), byte(TypeIDByte), byte(TypeIDBoolean)}
+	t := types[vfConcrete(vfInt("elemType", 0, len(types)-1))]
+	vfAssume(in[0]&0x3f == t && in[0]&VariantArrayValues != 0)
+	v := new(Variant)
+	k, err := v.Decode(in)
 	vfC02Check(k, err, in)
 }
